@@ -111,6 +111,7 @@ def setup():
 
 
 PROC_PATH = re.compile(r"^/vproc/(\d+)(/|$)")
+ENTRY_PATH = re.compile(r"^/vproc/\d+/(fd|fdinfo|task)/(\d+)(/|$)")
 
 
 def faultable(kind, path, pid):
@@ -185,6 +186,18 @@ def run_op(opname, fixture, plan, do_post=False):
                     finally:
                         shift = 0
                         vk_.plan.update(saved)
+                    return None
+                if action == "shrink":
+                    # the entry this access is about goes away while the process lives on: a descriptor is closed, a thread ends
+                    m = ENTRY_PATH.match(path)
+                    pr_ = t.procs.get(target)
+                    if m and pr_ is not None:
+                        n_ = int(m.group(2))
+                        if m.group(1) in ("fd", "fdinfo"):
+                            pr_.fds.pop(n_, None)
+                        elif n_ != target and pr_.threads:
+                            pr_.threads = [th for th in pr_.threads if th.tid != n_]
+                        fired[-1] = fired[-1] + ((m.group(1), n_),)
                     return None
                 if action == "halfvanish":
                     if target in t.procs:
@@ -309,6 +322,17 @@ def judge(opname, fixture, plan, out, pid, clean_value, acc):
             # (the hit_enoent bookkeeping named in the property's anchors): a list silently cut short by the death of the
             # *process* is not a well-formed answer for it - either everything was read before it died, or NoSuchProcess
             viols.append((f"partial_value_for_vanished_process:{opname}", desc + f" clean={str(clean_value)[:200]}"))
+        elif (clean_value is not None and opname in COLLECTORS and fired_actions == ["shrink", "vanish"] and own_targets
+              and len(out["fired"][0]) > 4):
+            kind_, n_ = out["fired"][0][4]
+            if kind_ == "task":
+                expect = [x for x in clean_value if x.id != n_]
+            else:
+                expect = [x for x in clean_value if getattr(x, "fd", None) != n_]
+            acc.count("entry_then_process_vanish_values_checked")
+            if repr(list(val)) != repr(expect):
+                viols.append((f"partial_value_for_vanished_process:{opname}:after_an_entry_vanished",
+                              desc + f" want NoSuchProcess, or everything but {kind_} {n_}: {str(expect)[:200]}"))
         elif (clean_value is not None and opname in EXACT_UNDER_FAULT and fired_actions and own_targets
               and all(a in ("EACCES", "EPERM", "vanish") for a in fired_actions)):
             # a fault that is survived (documented fall-back, or it struck after the data was read) must not change
@@ -372,6 +396,13 @@ def cases_for(opname, fixture, tier):
             for i in range(n):
                 for j in sorted(set(range(i + 1, n, step)) | ({n - 1} if n - 1 > i else set())):
                     plans.append([(i, "vanish"), (j, "othercall")])
+        if opname in COLLECTORS:
+            # an entry goes away at i (the one-off "is the process still there?" is spent on it), the process itself at j
+            entries = [k for k, (kind, path) in enumerate(trace) if ENTRY_PATH.match(path) and faultable(kind, path, pid)
+                       and not path.endswith(f"/task/{pid}/stat")]
+            for i in entries:
+                for j in range(i + 1, n):
+                    plans.append([(i, "shrink"), (j, "vanish")])
         pair_own = own if (tier == "thorough" or len(own) <= 12) else own[:12]
         for i in pair_own:
             for j in range(i + 1, n if (tier == "thorough" or n <= 14) else min(n, i + 6)):
@@ -617,9 +648,55 @@ def run_realfault(shard, acc):
                                                                       fired=[list(f) for f in out["fired"]]))
 
 
+def run_asdict_policy(fixture, acc):
+    """as_dict() / process_iter(attrs) policy, attribute by attribute: a slot holds ad_value exactly when the method of that
+    name raises AccessDenied or ZombieProcess for this process, otherwise what the method returns (static fixture).  Asked in
+    several attribute orders, because what one attribute raised must not decide what the next one gets."""
+    env = setup()
+    ps, vkernel = env["ps"], env["vkernel"]
+    t, pid = env["fixtures"].rich_table(zombie=(fixture == "zombie"), kthread=(fixture == "kthread"))
+    vk = vkernel.VK()
+    vk.table = t
+    vk.mount("/vproc", t)
+    vk.mount("/vmapped", vkernel.MemFS({}))
+    AD = "<ad_value>"
+    skip = {"cpu_percent", "memory_percent"}        # computed from two samples / another table
+    with vk:
+        ps.process_iter.cache_clear()
+        names = sorted(n for n in ps.Process(pid).as_dict() if n not in skip)
+        single = {}
+        for n in names:
+            try:
+                single[n] = ("v", repr(getattr(ps.Process(pid), n)()))
+            except (ps.AccessDenied, ps.ZombieProcess):
+                single[n] = ("ad", None)
+            except Exception as e:  # noqa: BLE001
+                single[n] = ("exc", type(e).__name__)
+        want = {n: (repr(AD) if k == "ad" else v) for n, (k, v) in single.items() if k != "exc"}
+        r = harness.rng_for("c03asdict", fixture)
+        orders = [names, names[::-1]] + [r.sample(names, len(names)) for _ in range(4)] + [r.sample(names, 5) for _ in range(6)]
+        for how in ("as_dict", "process_iter"):
+            for order in orders:
+                viols = []
+                try:
+                    if how == "as_dict":
+                        got = ps.Process(pid).as_dict(attrs=list(order), ad_value=AD)
+                    else:
+                        got = [p.info for p in ps.process_iter(attrs=list(order), ad_value=AD) if p.pid == pid][0]
+                except Exception as e:  # noqa: BLE001
+                    viols.append((f"as_dict_policy_exception:{type(e).__name__}:{fixture}", f"{how}(attrs={order}) raised {e!r}"))
+                    got = {}
+                bad = [f"{n}: got {repr(got[n])[:80]} want {want[n][:80]}" for n in order if n in got and n in want and repr(got[n]) != want[n]]
+                acc.count("as_dict_slots_compared_with_single_calls", len(order))
+                if bad:
+                    viols.append((f"as_dict_slot_differs_from_single_call:{fixture}",
+                                  f"{how}(attrs={order}, ad_value={AD!r}) on the {fixture} fixture: " + "; ".join(bad[:6])))
+                acc.case(dict(kind="asdict_policy", fixture=fixture, how=how, order=order), fixture != "live", viols)
+
+
 def plan(tier, seed):
     names = [n for n, _ in ops_names()]
-    shards = [dict(kind="shimdiff")]
+    shards = [dict(kind="shimdiff")] + [dict(kind="asdict_policy", fixture=f) for f in ("live", "zombie", "kthread")]
     for fixture in ("live", "zombie", "kthread"):
         step = 4 if fixture != "kthread" else 8
         for chunk in range(0, len(names), step):
@@ -643,6 +720,8 @@ def run_shard(shard):
     setup()
     if shard["kind"] == "realfault":
         run_realfault(shard, acc)
+    elif shard["kind"] == "asdict_policy":
+        run_asdict_policy(shard["fixture"], acc)
     elif shard["kind"] == "enum":
         for opname in shard["ops"]:
             fixture = shard["fixture"]
